@@ -159,3 +159,113 @@ Theorem C08_h2_necessary :
   Permutation Ex.c1 Ex.c2 /\ ~ store_eq (final Ex.c1) (final Ex.c2).
 Proof. exact (conj Ex.c1_c2_perm Ex.c1_c2_not_equal). Qed.
 Print Assumptions C08_h2_necessary.
+
+(* ---------------------------------------------------------------- executions that are not one sorted commit
+   (Proofs/C08_seg.v).  okL T = in the trace T nobody at or after a statement writes a key that statement read. *)
+Require Import Verif.Proofs.C08_seg.
+
+(* the scheduling theorem for ARBITRARY execution orders of the same statements *)
+Theorem C08_trace_permutation_invariant : forall T T',
+  NoDup (map sid T) -> Permutation T T' -> Horder T T' -> H1 T -> H2 T -> okL T -> okL T' ->
+  store_eq (runl T empty) (runl T' empty).
+Proof. exact trace_permutation_invariant. Qed.
+Print Assumptions C08_trace_permutation_invariant.
+
+(* intermediate commits:  a ; commit() ; b ; commit()  ends in the store of the single commit of a ++ b when the prefix
+   is closed (no statement of b writes a key a statement of a reads) and the ordered containers see a's members first *)
+Theorem C08_segmented_commit_invariant : forall a b,
+  NoDup (map sid (a ++ b)) -> H1 (a ++ b) -> H2 (a ++ b) -> closed_prefix a b ->
+  (forall k, filter (seq_writer k) (schedule a ++ schedule b) = filter (seq_writer k) (schedule (a ++ b))) ->
+  store_eq (final2 a b) (final (a ++ b)).
+Proof. exact segmented_commit_invariant. Qed.
+Print Assumptions C08_segmented_commit_invariant.
+
+(* ... in particular when the members of each ordered container share a phase (as in the directive table) *)
+Theorem C08_closed_prefix_commit_equiv : forall a b,
+  NoDup (map sid (a ++ b)) -> H1 (a ++ b) -> H2 (a ++ b) -> closed_prefix a b -> seq_same_phase (a ++ b) ->
+  store_eq (final2 a b) (final (a ++ b)).
+Proof. exact closed_prefix_commit_equiv. Qed.
+Print Assumptions C08_closed_prefix_commit_equiv.
+
+(* one commit or two, any statement order that keeps the ordered containers: the same store *)
+Theorem C08_segmented_variants_agree : forall a b l',
+  NoDup (map sid (a ++ b)) -> H1 (a ++ b) -> H2 (a ++ b) -> closed_prefix a b -> seq_same_phase (a ++ b) ->
+  Permutation (a ++ b) l' -> Horder (a ++ b) l' ->
+  store_eq (final2 a b) (final l').
+Proof. exact segmented_variants_agree. Qed.
+Print Assumptions C08_segmented_variants_agree.
+
+(* non-vacuity and necessity of closedness: a closed cut agrees with the single commit (and leaves a non-empty cell);
+   an open cut -- the view committed before the default permission is declared -- ends in a different store *)
+Theorem C08_closed_cut_example :
+  closed_prefix [SegEx.rd; SegEx.wr] [SegEx.other] /\
+  final2 [SegEx.rd; SegEx.wr] [SegEx.other] 9%N = final [SegEx.rd; SegEx.wr; SegEx.other] 9%N /\
+  final2 [SegEx.rd; SegEx.wr] [SegEx.other] 9%N <> [].
+Proof. exact SegEx.closed_cut_ok. Qed.
+Print Assumptions C08_closed_cut_example.
+
+Theorem C08_open_cut_differs :
+  ~ closed_prefix [SegEx.rd] [SegEx.wr] /\ final2 [SegEx.rd] [SegEx.wr] 9%N <> final [SegEx.rd; SegEx.wr] 9%N.
+Proof. exact SegEx.open_cut_differs. Qed.
+Print Assumptions C08_open_cut_differs.
+
+(* the regenerated table has the property the intermediate-commit theorem needs: all directives that append to one
+   ordered container do so in one phase (vm_compute over Gen/Facts_C08.v) -- hence for every program made of rows of the
+   regenerated table, two commits after a closed prefix end in the store of the single commit *)
+Theorem C08_table_seq_same_phase : forall (l : list (row * stmt)),
+  (forall p, In p l -> In (fst p) rows /\ conforms (fst p) (snd p) = true) -> seq_same_phase (map snd l).
+Proof. exact (table_seq_same_phase table_seq_ok_holds). Qed.
+Print Assumptions C08_table_seq_same_phase.
+
+Theorem C08_table_programs_segmented : forall (a b : list (row * stmt)),
+  (forall p, In p (a ++ b) -> In (fst p) rows /\ conforms (fst p) (snd p) = true) ->
+  NoDup (map sid (map snd a ++ map snd b)) -> H1 (map snd a ++ map snd b) -> closed_prefix (map snd a) (map snd b) ->
+  store_eq (final2 (map snd a) (map snd b)) (final (map snd a ++ map snd b)).
+Proof. exact table_programs_segmented. Qed.
+Print Assumptions C08_table_programs_segmented.
+
+(* an intermediate-commit cut found closed by the executable check of the extracted model is closed *)
+Theorem C08_closed_prefixb_sound : forall a b, closed_prefixb a b = true -> closed_prefix a b.
+Proof. exact closed_prefixb_sound. Qed.
+Print Assumptions C08_closed_prefixb_sound.
+
+(* ---------------------------------------------------------------- intermediate commits over the REAL commit model (Proofs/C08_segc.v) *)
+Require Import Verif.Proofs.C08_segc.
+
+(* C04's commit applied to each segment in turn ([commit_segs]) ends Done and runs  schedule A ++ schedule B,
+   whatever the include trees *)
+Theorem C08_commit_segs_runs_schedules : forall paths declA declB,
+  NoDup (map sid (stmts_of declA)) -> NoDup (map sid (stmts_of declB)) ->
+  discs_nodup (acts_of paths declA) = true -> discs_nodup (acts_of paths declB) = true ->
+  fst (commit_segs [acts_of paths declA; acts_of paths declB]) = Done /\
+  run_ids (snd (commit_segs [acts_of paths declA; acts_of paths declB]))
+    = sids (schedule (stmts_of declA)) ++ sids (schedule (stmts_of declB)).
+Proof. exact commit_segs_runs_schedules. Qed.
+Print Assumptions C08_commit_segs_runs_schedules.
+
+(* two commits with a closed prefix, executed by the real commit model, leave the store that ONE commit of any
+   reordering (keeping the ordered containers) in any other include tree leaves *)
+Theorem C08_commit_model_segmented_invariant : forall paths paths' declA declB decl',
+  let dA := stmts_of declA in
+  let dB := stmts_of declB in
+  let dl' := stmts_of decl' in
+  NoDup (map sid (dA ++ dB)) -> Permutation (dA ++ dB) dl' ->
+  discs_nodup (acts_of paths declA) = true -> discs_nodup (acts_of paths declB) = true ->
+  discs_nodup (acts_of paths' decl') = true ->
+  Horder (dA ++ dB) dl' -> H1 (dA ++ dB) -> H2 (dA ++ dB) -> closed_prefix dA dB -> seq_same_phase (dA ++ dB) ->
+  store_eq (exec_store2 paths declA declB) (exec_store paths' decl').
+Proof. exact commit_model_segmented_invariant. Qed.
+Print Assumptions C08_commit_model_segmented_invariant.
+
+(* non-vacuity: a two-commit program in one include tree vs a one-commit program in another (computed) *)
+Theorem C08_two_commits_example :
+  fst (commit_segs [acts_of ExC.pathsA ExS.seg1; acts_of ExC.pathsA ExS.seg2]) = Done /\
+  run_ids (snd (commit_segs [acts_of ExC.pathsA ExS.seg1; acts_of ExC.pathsA ExS.seg2])) = [1; 2; 4; 3]%N /\
+  closed_prefix (stmts_of ExS.seg1) (stmts_of ExS.seg2) /\
+  forallb (fun k => cell_eqb (exec_store2 ExC.pathsA ExS.seg1 ExS.seg2 k) (exec_store ExC.pathsB ExC.declB k)) [1; 2; 3; 4; 5]%N = true /\
+  exec_store2 ExC.pathsA ExS.seg1 ExS.seg2 4%N <> [].
+Proof.
+  exact (conj (proj1 ExS.two_commits) (conj (proj1 (proj2 ExS.two_commits))
+        (conj ExS.closed (conj (proj1 ExS.same_store_as_one_commit) (proj2 ExS.same_store_as_one_commit))))).
+Qed.
+Print Assumptions C08_two_commits_example.
